@@ -187,8 +187,8 @@ fn jittered(rng: &mut Rng, base: u64, amp: u64) -> u64 {
     (base + j).saturating_sub(amp).min(MAX_NS)
 }
 
-/// Returns None for "timeout", Some(ns) for "sample".
-fn next_call(rng: &mut Rng, mode: u64, base: u64, amp: u64) -> Option<u64> {
+/// Returns None for "timeout", Some(ns) for "sample".  `i` is the index of the call in its sequence.
+fn next_call(rng: &mut Rng, mode: u64, base: u64, amp: u64, i: u64, lead: u64) -> Option<u64> {
     let p = rng.below(100);
     match mode {
         // mix
@@ -199,19 +199,21 @@ fn next_call(rng: &mut Rng, mode: u64, base: u64, amp: u64) -> Option<u64> {
                 Some(any_value(rng))
             }
         }
-        // steady around `base` (lets the variance decay below a quarter of the clock granularity)
+        // steady around `base`: lets the variance decay below a quarter of the clock granularity
+        // (no outlier during the first 60 calls, so that the regime is reached in every sequence)
         1 | 4 => {
-            if p < 7 {
+            if p < 6 {
                 None
-            } else if p < 10 {
+            } else if p < 8 && i >= 60 {
                 Some(any_value(rng))
             } else {
                 Some(jittered(rng, base, amp))
             }
         }
-        // timeout-heavy (reaches the cap, then a sample brings the timeout back)
+        // timeout-heavy: starts with `lead` timeouts on the fresh estimator, reaches the cap, and a
+        // sample brings the timeout back
         2 => {
-            if p < 55 {
+            if i < lead || p < 55 {
                 None
             } else {
                 Some(any_value(rng))
@@ -242,22 +244,11 @@ fn record(seed: u64, n: u64, path: &str, len: u64) {
     for seq in 0..n {
         let mode = seq % 5;
         let base = match mode {
-            1 => {
-                // somewhere between 150 ms and 70 s, or a boundary value of at least 150 ms
-                if rng.below(2) == 0 {
-                    150 * MS + rng.below(70 * S)
-                } else {
-                    loop {
-                        let b = rng.pick(BOUNDARY);
-                        if b >= 150 * MS {
-                            break b;
-                        }
-                    }
-                }
-            }
+            1 => 195 * MS + rng.below(59_785 * MS), // 195 ms .. 59.98 s: srtt + 10 ms inside the bounds
             4 => 59_900 * MS + rng.below(200 * MS), // around the cap
             _ => 0,
         };
+        let lead = 1 + rng.below(12);
         let amp = rng.pick(&[0u64, 1, 1_000, 100_000, 2 * MS]);
         let mut e = RttEstimator::default();
         match call(&mut e, 0, Duration::ZERO) {
@@ -268,8 +259,8 @@ fn record(seed: u64, n: u64, path: &str, len: u64) {
                 continue;
             }
         }
-        for _ in 0..len {
-            let c = next_call(&mut rng, mode, base, amp);
+        for i in 0..len {
+            let c = next_call(&mut rng, mode, base, amp, i, lead);
             let (op, name, a) = match c {
                 None => (2, "timeout", 0),
                 Some(v) => (1, "sample", v),
